@@ -625,6 +625,7 @@ func TestC15(t *testing.T) {
 			C *CaseC  `json:"c"`
 			D *CaseD  `json:"close"`
 			E []EStep `json:"driver"`
+			F int     `json:"busy"`
 		}
 		if err := vcore.LoadReplayCase(f, &w); err != nil {
 			t.Fatalf("replay %s: %v", f, err)
@@ -653,12 +654,17 @@ func TestC15(t *testing.T) {
 			vcore.E.Eval()
 			vcore.Report(t, runE(w.E), map[string]any{"driver": w.E})
 		}
+		if w.F > 0 {
+			vcore.E.Eval()
+			vcore.Report(t, runBusy(w.F), map[string]any{"busy": w.F})
+		}
 	}
 	if explicit {
 		return
 	}
 	closePart(t)
 	driverPart(t)
+	busyPart(t)
 	vcore.Check(t, vcore.N(500, 9000), func(rt *rapid.T) {
 		c := genA(rt)
 		v, s := runA(c)
